@@ -488,16 +488,15 @@ class CropKspace(DirectTransform):
 
         backprojected_kspace = self.backward_operator(kspace, dim=dim)  # shape (coil, height, width, complex=2)
 
-        if isinstance(self.crop, IntegerListOrTupleString):
-            crop_shape = IntegerListOrTupleString(self.crop)
-        elif isinstance(self.crop, str):
+        if isinstance(self.crop, str) and not isinstance(self.crop, IntegerListOrTupleString):
             assert self.crop in sample, f"Not found {self.crop} key in sample."
             crop_shape = sample[self.crop][:-1]
         else:
-            if kspace.ndim == 5 and len(self.crop) == 2:
-                crop_shape = (kspace.shape[1],) + tuple(self.crop)
+            crop = IntegerListOrTupleString(self.crop) if isinstance(self.crop, str) else self.crop
+            if kspace.ndim == 5 and len(crop) == 2:
+                crop_shape = (kspace.shape[1],) + tuple(crop)
             else:
-                crop_shape = tuple(self.crop)
+                crop_shape = tuple(crop)
 
         cropper_args = {
             "data_list": [backprojected_kspace],
